@@ -1302,6 +1302,38 @@ func (cx *c03ctx) checkReported(ln int, rep [][4]int, unmerged *[4]int) {
 				r.Fail("unmerge:overlapping-range-kept", fmt.Sprintf("UnmergeCell(%s) kept the intersecting range %s", c03rectRef(*unmerged), c03rectRef(q)), ln, cx.replay())
 			}
 		}
+		// theorem unmerge_exact_on_disjoint: on a pairwise-disjoint stored list UnmergeCell(q) leaves exactly
+		// the entries that do not intersect q, in their order (nothing rebuilt, nothing else dropped)
+		disjoint := true
+		for i := range cx.merges {
+			for j := i + 1; j < len(cx.merges); j++ {
+				if c03intersect(cx.merges[i], cx.merges[j]) {
+					disjoint = false
+				}
+			}
+		}
+		if disjoint {
+			var want [][4]int
+			for _, m := range cx.merges {
+				if !c03intersect(m, *unmerged) {
+					want = append(want, m)
+				}
+			}
+			same := len(want) == len(rep)
+			for i := 0; same && i < len(want); i++ {
+				same = want[i] == rep[i]
+			}
+			if !same {
+				r.Fail("unmerge:disjoint-not-exact", fmt.Sprintf("UnmergeCell(%s) on the disjoint list %v left %v, want %v", c03rectRef(*unmerged), cx.merges, rep, want), ln, cx.replay())
+			}
+			if len(want) == len(cx.merges) {
+				r.Stat("unmerge:disjoint-list:none-removed")
+			} else {
+				r.Stat("unmerge:disjoint-list:some-removed")
+			}
+		} else {
+			r.Stat("unmerge:overlapping-list")
+		}
 		return
 	}
 	// two overlapping ranges normalise to exactly their bounding box (the one-pass defect needs three)
